@@ -576,7 +576,8 @@ class RefSim:
                     self.pending = []
                 return "bound"
             r = self._exec(e)
-            n += 1
+            if e[4] != "W":
+                n += 1                      # max_events counts model events only
             if r == "fault" and pause_on_fault:
                 return "fault"
             if max_events is not None and n >= max_events:
